@@ -20,6 +20,8 @@ pub enum Beh {
     Panic,
     /// a response whose body is a file: (status, declared length, bytes on disk or None = file missing)
     File(u16, u64, Option<usize>),
+    /// an event stream of `n` messages sent 25 ms apart by another thread, then closed
+    Events(u32),
 }
 
 struct Shared {
@@ -92,6 +94,16 @@ fn handler(req: Request) -> Response {
                 std::fs::write(&p, (0..n).map(|i| b'a' + (i % 26) as u8).collect::<Vec<u8>>()).unwrap();
             }
             Response::new(code).with_type(servlin::ContentType::OctetStream).with_body(servlin::ResponseBody::File(p, declared))
+        }
+        Beh::Events(n) => {
+            let (mut sender, r) = Response::event_stream();
+            std::thread::spawn(move || {
+                for i in 1..=n {
+                    std::thread::sleep(Duration::from_millis(25));
+                    sender.send(servlin::Event::Message(format!("e{i}-{path}")));
+                }
+            });
+            r
         }
     }
 }
@@ -189,6 +201,7 @@ pub fn request_bytes(spec: &str) -> (Vec<u8>, String, Beh) {
         "a" => Beh::AlwaysGetBody(beh[1..].parse().unwrap()),
         "d" => Beh::Drop,
         // F<code>-<declared>-<actual|m>
+        "E" => Beh::Events(beh[1..].parse().unwrap()),
         "F" => {
             let parts: Vec<&str> = beh[1..].split('-').collect();
             Beh::File(parts[0].parse().unwrap(), parts[1].parse().unwrap(), if parts[2] == "m" { None } else { Some(parts[2].parse().unwrap()) })
@@ -300,6 +313,13 @@ pub fn case(ctx: &mut Ctx, tag: &str, small: &str, cache: &str, schedule: &str, 
         match sched.as_str() {
             "single" => { let _ = client.write_all(&all); }
             "bytes" => { for b in &all { if client.write_all(&[*b]).is_err() { break; } } }
+            // each further request 35 ms after the one before: it arrives while the response to the earlier one is still being produced
+            "mid" => {
+                for (i, (bytes, _, _)) in specs.iter().enumerate() {
+                    if i > 0 { std::thread::sleep(Duration::from_millis(35)); }
+                    if client.write_all(bytes).is_err() { break; }
+                }
+            }
             "frag" => {
                 let mut pos = 0;
                 while pos < all.len() {
@@ -503,6 +523,20 @@ pub fn run(ctx: &mut Ctx) {
         let sched = match rng.below(8) { 0 | 1 => "single", 2 if total < 1500 => "bytes", 3 => "frag", 4 => "pingpong", 5 | 6 => cut.as_str(), _ => "single" };
         if ctx.mine(i) {
             case(ctx, "c04", &small.to_string(), if cache { "1" } else { "0" }, sched, &reqs.join(";"));
+        }
+    }
+    // event streams inside a sequence: the requests that follow arrive with the first one, in fragments, or while the stream is
+    // still being produced; every event and every later response must arrive, in order
+    let mut eidx = 50_000u64;
+    for n in [1u32, 2, 3] {
+        for sched in ["single", "frag", "mid"] {
+            for shape in 0..2 {
+                eidx += 1;
+                if !ctx.mine(eidx) { continue; }
+                let reqs = if shape == 0 { format!("GET:/ev{eidx}:n::E{n};GET:/after{eidx}:n::n200") }
+                    else { format!("GET:/pre{eidx}:n::n200;GET:/ev{eidx}:n::E{n};POST:/post{eidx}:k:{}:n201;GET:/ev2{eidx}:n::E1", body(&mut rng, 30)) };
+                case(ctx, "c04", "100", "1", sched, &reqs);
+            }
         }
     }
     // a client that waits for `100 Continue` before sending the body (head first, body after the interim response)
